@@ -588,6 +588,9 @@ def c15_history(col, rng, hidx, jobref=None):
             col.violation(pid, "executor_first_run_raised", dict(exc=repr(r1[1])[:300], selection=S.jsonable(kw), source=S.render(sp)), rp)
             return
         args2 = fresh_args()
+        needs_x = any(a == ["p", "x"] for i in sel for a in list(sp["nodes"][i]["args"]) + list(sp["nodes"][i]["kwargs"].values()) + [sp["nodes"][i]["active"]])
+        if needs_x and rng.random() < 0.3:
+            args2 = []  # the required argument (needed by the selection) is missing: this call cannot return normally
 
         async def a2():
             return await ex(*args2)
@@ -606,10 +609,18 @@ def c15_history(col, rng, hidx, jobref=None):
             if isinstance(r2[1], TawaziUsageError):
                 col.counters["c15_rerun_refused"] += 1
                 return
+            if not args2 and isinstance(r2[1], TawaziArgumentException):
+                col.counters["c15_rerun_without_required_argument_rejected"] += 1
+                return
             col.violation(pid, "executor_rerun_raised_internal_error", dict(exc=repr(r2[1])[:300], after="failure" if fail_first else "success",
                                                                            selection=S.jsonable(kw), source=S.render(sp)), rp2)
             return
         col.counters["c15_rerun_ran"] += 1
+        if not args2:
+            col.violation(pid, "executor_rerun_used_partially_consumed_graph", dict(
+                after="failure" if fail_first else "success", note="second call WITHOUT the required argument returned normally: it can only "
+                "have returned what the first run left behind", got=short(r2[1], 300), selection=S.jsonable(kw), source=S.render(sp)), rp2)
+            return
         if ref2[0] != "ok":
             return
         exp = {ids[i] for i in sel if ref2[1].active.get(i)}
@@ -974,13 +985,26 @@ def _c18_case(col, rng, cidx, tmpdir, jobref=None):
     if rng.random() < 0.3 and r2[0] == "ok":
         # the same cache file is written again by a later caching run with OTHER arguments, and restarted from again
         args_b = [Sym("arg", cidx, "second")]
+        kwb = {k: v for k, v in kw2.items() if k != "cache_in"}
+        exb = None
+        if rng.random() < 0.5:
+            # the restart executor is BUILT while the file still holds the older run; it is STARTED after the file was rewritten
+            try:
+                exb = d2.executor(**kwb)
+                col.counters["c18_restart_executors_built_before_the_file_was_rewritten"] += 1
+            except BaseException as e:  # noqa: BLE001
+                if isinstance(e, (KeyboardInterrupt, SystemExit)):
+                    raise
+                col.counters["c18_restart_executor_refused_at_construction:%s" % type(e).__name__] += 1
         B.reset_log()
         rb1 = probes.run_op("caching_run_same_path", lambda: op_exec(d2, kw1, args_b))
         rec(d2, B.snapshot())
-        kwb = {k: v for k, v in kw2.items() if k != "cache_in"}
         pre_b = dict(inst_setup.get(id(d2), {}))
         B.reset_log()
-        rb2 = probes.run_op("restart_run_same_path", lambda: op_exec(d2, kwb, args_b))
+        if exb is not None:
+            rb2 = probes.run_op("restart_run_same_path", lambda: do(d2, lambda: exb(*args_b), lambda: _acall(exb, args_b)))
+        else:
+            rb2 = probes.run_op("restart_run_same_path", lambda: op_exec(d2, kwb, args_b))
         entb, _vb = observed(B.snapshot())
         col.evaluations += 1
         col.counters["c18_same_path_rewritten_and_restarted"] += 1
